@@ -85,7 +85,7 @@ pub fn props() -> Vec<PropCfg> {
         },
         PropCfg {
             id: "C04",
-            profiles: &[("C04", 5), ("C04-encfail", 2), ("C04-stock", 2), ("C04-quota", 1)],
+            profiles: &[("C04", 50), ("C04-encfail", 20), ("C04-stock", 20), ("C04-quota", 10), ("C04-scale", 3)],
             quick_runs: 60000,
             thorough_runs: 1000000,
             level: "exploration",
@@ -102,7 +102,7 @@ pub fn props() -> Vec<PropCfg> {
         },
         PropCfg {
             id: "C05",
-            profiles: &[("C05", 33), ("C05-encfail", 6), ("C05-fault", 1)],
+            profiles: &[("C05", 660), ("C05-encfail", 120), ("C05-fault", 20), ("C05-scale", 7)],
             quick_runs: 40000,
             thorough_runs: 600000,
             level: "exploration",
@@ -113,7 +113,7 @@ pub fn props() -> Vec<PropCfg> {
         },
         PropCfg {
             id: "C06",
-            profiles: &[("C06", 35), ("C06-encfail", 4), ("C06-fault", 1)],
+            profiles: &[("C06", 700), ("C06-encfail", 80), ("C06-fault", 20), ("C06-scale", 7)],
             quick_runs: 40000,
             thorough_runs: 400000,
             level: "exploration",
@@ -135,7 +135,7 @@ pub fn props() -> Vec<PropCfg> {
         },
         PropCfg {
             id: "C08",
-            profiles: &[("C08", 3), ("C08-obst", 1)],
+            profiles: &[("C08", 30), ("C08-obst", 10), ("C08-streak", 1)],
             quick_runs: 1500,
             thorough_runs: 30000,
             level: "fault_enumeration",
@@ -162,7 +162,7 @@ pub fn props() -> Vec<PropCfg> {
         },
         PropCfg {
             id: "C17",
-            profiles: &[("C17", 35), ("C17-encfail", 4), ("C17-fault", 1)],
+            profiles: &[("C17", 700), ("C17-encfail", 80), ("C17-fault", 20), ("C17-scale", 7)],
             quick_runs: 40000,
             thorough_runs: 600000,
             level: "exploration",
